@@ -96,6 +96,8 @@ pub struct Oracle {
     now_ms: u64,
     resumed_at: Option<u64>,
     reqs_done: bool,
+    cancel_pending: bool,
+    fin_pdu_seen: bool,
     owed: Vec<(u64, u64)>,
     owed_md: bool,
     spoiled: bool,
@@ -135,6 +137,8 @@ impl Oracle {
             now_ms: 0,
             resumed_at: None,
             reqs_done: false,
+            cancel_pending: false,
+            fin_pdu_seen: false,
             owed: Vec::new(),
             owed_md: false,
             spoiled: false,
@@ -177,9 +181,15 @@ impl Oracle {
             if let Some((it, ms)) = o.idle {
                 let k: usize = t[1].parse().unwrap();
                 let h = &self.cfg.handlers;
-                let lenient = [Condition::PositiveLimitReached, Condition::NakLimitReached, Condition::InactivityDetected]
-                    .iter()
-                    .any(|c| matches!(h.get(c), Some(FaultHandlerAction::Ignore) | Some(FaultHandlerAction::Suspend)));
+                let soft = |c: &Condition| matches!(h.get(c), Some(FaultHandlerAction::Ignore) | Some(FaultHandlerAction::Suspend));
+                // an ignored inactivity limit does not stop the other timers: once the receiver has a Finished PDU
+                // outstanding, its positive-ACK limit still ends the transaction
+                let ignore_only_inactivity = self.is_recv
+                    && self.fin_pdu_seen
+                    && matches!(h.get(&Condition::InactivityDetected), Some(FaultHandlerAction::Ignore))
+                    && !soft(&Condition::PositiveLimitReached);
+                let lenient = !ignore_only_inactivity
+                    && [Condition::PositiveLimitReached, Condition::NakLimitReached, Condition::InactivityDetected].iter().any(soft);
                 let tmax = self.cfg.ti.max(self.cfg.ta).max(self.cfg.tn) as u64 * 1000;
                 let delay = match self.cfg.nak {
                     NakProcedure::Immediate(d) | NakProcedure::Deferred(d) => d.as_millis() as u64,
@@ -193,6 +203,9 @@ impl Oracle {
                         self.fail(orc, "C03", k, format!("transaction stuck after {it} loop iterations: active, nothing to send and no timer running"));
                     } else if !lenient {
                         self.fail(orc, "C03", k, format!("transaction still active after {it} loop iterations without any incoming PDU"));
+                        if ignore_only_inactivity {
+                            self.fail(orc, "C17", k, "with the inactivity fault ignored the positive-ACK limit was never declared: ignoring one limit stopped the other timers".into());
+                        }
                     }
                 }
                 if o.st == TransactionState::Terminated && !lenient && ms > bound {
@@ -268,6 +281,13 @@ impl Oracle {
 
     fn step_recv(&mut self, k: usize, t: &[&str], o: &Obs, orc: &mut impl Write) {
         let acked = self.cfg.mode == TransmissionMode::Acknowledged;
+        if o.pdus.iter().any(|(_, p)| matches!(p.payload, PDUPayload::Directive(Operations::Finished(_)))) {
+            self.fin_pdu_seen = true;
+        }
+        // ---- C04: nothing that arrives after a completed delivery may make the transaction fail
+        if self.done && (o.res == "err" || o.res == "PANIC") {
+            self.fail(orc, "C04", k, format!("after the delivery had completed, `{}` made the transaction return a fatal error", t.join(" ")));
+        }
         // ---- C13, transaction clause: the requests of the metadata run once, in order, only in a finalisation
         // that ends without error; the same responses go to the user and into the Finished PDU
         if !self.cfg.reqs.is_empty() {
@@ -402,6 +422,9 @@ impl Oracle {
                     nak_emitted = true;
                     if !acked {
                         self.fail(orc, "C18", k, "NAK PDU emitted in unacknowledged mode".into());
+                        if self.resumed_at.is_some() {
+                            self.fail(orc, "C19", k, "a resumed unacknowledged receiver started to send NAKs: it does not continue as an unsuspended one would".into());
+                        }
                     }
                     if self.eof_size.is_some() {
                         self.nak_since_eof = true;
@@ -596,6 +619,33 @@ impl Oracle {
         let acked = self.cfg.mode == TransmissionMode::Acknowledged;
         let flen = self.cfg.file.len() as u64;
         let flag = if self.cfg.large { FileSizeFlag::Large } else { FileSizeFlag::Small };
+        // ---- C10: a user cancel of an active send transaction tells the peer: an EOF with the cancel
+        //      condition goes out before the transaction has nothing left to send
+        if t[0] == "CANCEL" && o.res == "ok" && o.st == TransactionState::Active {
+            self.cancel_pending = true;
+        }
+        if o.pdus.iter().any(|(_, p)| matches!(&p.payload, PDUPayload::Directive(Operations::EoF(e)) if e.condition != Condition::NoError)) {
+            self.cancel_pending = false;
+        }
+        if o.st != TransactionState::Active || o.res != "ok" {
+            if o.st == TransactionState::Terminated {
+                self.cancel_pending = false;
+            }
+        } else if self.cancel_pending && !o.hp {
+            self.fail(orc, "C10", k, "the cancelled sender has nothing left to send but never sent an EOF carrying the cancel condition".into());
+            self.cancel_pending = false;
+        }
+        // ---- C13: the sending user is shown the filestore responses the Finished PDU carries
+        if t[0] == "PDU" && t[1] == "FIN" && o.res == "ok" {
+            let n: usize = t[6].parse().unwrap();
+            for i in &o.inds {
+                if let Indication::Finished(f) = i {
+                    if f.filestore_responses.len() != n {
+                        self.fail(orc, "C13", k, format!("the Finished PDU carried {n} filestore responses, the sending user was shown {}", f.filestore_responses.len()));
+                    }
+                }
+            }
+        }
         // ---- C07: what the receiver asked for (the part inside the file) is owed until retransmitted
         if matches!(t[0], "CANCEL" | "ABANDON") || (t[0] == "PDU" && t[1] == "FIN") || o.res != "ok" || o.st == TransactionState::Terminated {
             self.spoiled = true;
@@ -1031,6 +1081,40 @@ pub fn gen_recv(seed: u64, tier: &str, w: &mut impl Write, stats: &mut Stats) {
             script.push("SEND".into());
             script.push("IDLE 300".into());
         }
+        if data_ops.len() >= 3 && r.chance(1, 25) {
+            // targeted family: a user suspends and resumes the receiver while a segment (or the metadata) is
+            // missing and the EOF has not arrived - afterwards it must carry on as if never suspended
+            stats.inc("script_suspend_resume_with_gap");
+            script.clear();
+            truthful = true;
+            if r.chance(3, 4) {
+                script.push(base[0].clone());
+            }
+            let lost = 1 + r.below(data_ops.len() as u64 - 2) as usize;
+            for (i, d) in data_ops.iter().enumerate() {
+                if i == lost {
+                    continue;
+                }
+                script.push(d.clone());
+                if i == lost + 1 {
+                    script.push("SEND".into());
+                    script.push("SUSPEND".into());
+                    script.push(format!("ADV {}", adv_choice(&mut r, &p)));
+                    script.push("RESUME".into());
+                    script.push("SEND".into());
+                    script.push("SEND".into());
+                    script.push(format!("ADV {}", p.tn * 1000));
+                    script.push("TIMEOUT".into());
+                    script.push("SEND".into());
+                }
+            }
+            script.push(format!("PDU EOF 0 {} {} -", cks(&p.file, p.ck), flen));
+            script.push("SEND".into());
+            script.push("SEND".into());
+            script.push(data_ops[lost].clone());
+            script.push("SEND".into());
+            script.push("IDLE 200".into());
+        }
         if flen > p.seg && r.chance(1, 25) {
             // targeted family: one segment is lost for good, and as much stray data arrives beyond the end of
             // the file (before or after the EOF): the receiver holds at least "file size" bytes, not the file
@@ -1068,7 +1152,9 @@ pub fn gen_recv(seed: u64, tier: &str, w: &mut impl Write, stats: &mut Stats) {
         stats.add("ops", script.len() as u64);
         let _ = p.acked;
         let reqs_hdr = if reqs.is_empty() { String::new() } else { format!(" reqs={}", reqs.iter().map(|x| x.0).collect::<Vec<_>>().join(",")) };
-        writeln!(w, "CASE r{case} sub={sub} {}{}{}", p.hdr, truth, reqs_hdr).unwrap();
+        // one case in ten: an older, longer file already sits under the destination name
+        let pre_hdr = if r.chance(1, 10) { stats.inc("cases_with_preexisting_destination"); format!(" pre={}", flen + 1 + r.below(40)) } else { String::new() };
+        writeln!(w, "CASE r{case} sub={sub} {}{}{}{}", p.hdr, truth, reqs_hdr, pre_hdr).unwrap();
         for s in script {
             writeln!(w, "{s}").unwrap();
         }
@@ -1137,7 +1223,11 @@ pub fn gen_send(seed: u64, tier: &str, w: &mut impl Write, stats: &mut Stats) {
                     }
                 }
                 5 => script.push(format!("PDU KA {}", r.below(flen + 1))),
-                6 => script.push(format!("PDU FIN {} {} {} - 0", r.pick(&[0u8, 0, 15, 5]), r.below(2), r.pick(&[2u8, 3]))),
+                6 => {
+                    // a third of the Finished PDUs report filestore responses (written in request form)
+                    let resp = if r.chance(1, 3) { format!("2 {} {}", hex(&[0x00, 3, b'r', b'q', b'a', 0]), hex(&[0x50, 3, b'r', b'q', b'd', 0])) } else { "0".to_string() };
+                    script.push(format!("PDU FIN {} {} {} - {}", r.pick(&[0u8, 0, 15, 5, 1]), r.below(2), r.pick(&[2u8, 3]), resp))
+                }
                 7 => script.push(
                     r.pick(&["PDU ACK F F 0 1", "PDU FD 0 aa", "PDU EOF 0 0 0 -", "PDU PR N", "PDU MD 0 M 0 73 64 0 0"]).to_string(),
                 ),
